@@ -234,7 +234,12 @@ def kkt_residual_computation(
     res = opt_problem.database.get_function_value(KKT_RESIDUAL_NORM, x_vect)
     if res is not None:
         return res
+    # The instantiation of LagrangeMultipliers resets the evaluation counter,
+    # which must keep counting during the execution of a driver.
+    evaluation_counter = opt_problem.evaluation_counter
+    current_number_of_evaluations = evaluation_counter.current
     lagrange = LagrangeMultipliers(opt_problem)
+    evaluation_counter.current = current_number_of_evaluations
     if opt_problem.constraints:
         lagrange.compute(x_vect, ineq_tolerance=ineq_tolerance)
         res = lagrange.kkt_residual + lagrange.constraint_violation
